@@ -221,6 +221,10 @@ def _window(ctx, u, cfg, name: Optional[str], grown: ast.AST, n: Node) -> Tuple[
             ok = "from_iters" in text
             return (ok, "one head holder per source (from_iters yields one per iterator)" if ok else
                     "the heap is not filled from the per-source initial fill")
+        # explicit fill loop: the enclosing async-for ranges over the per-source generator
+        fills = [a for (k, a) in n.regions if k == "loop" and isinstance(a, ast.AsyncFor) and "from_iters" in norm(a.iter)]
+        if fills and n.kind == "call" and norm(n.ast.func).split(".")[-1] == "append":
+            return True, "one head holder per source (filled in the loop over from_iters)"
         return False, "the heap grows outside its initial fill"
     if short == "itertools.tee_peer":
         ok = isinstance(grown, ast.Name) and any(isinstance(a, ast.For) and norm(a.iter) in u.param_names()
